@@ -41,6 +41,16 @@ func QualName(fn *ssa.Function) string { return pkgShort(fn) + "." + FuncName(fn
 
 // Verify dispatches on the contract: closure families or plain functions.
 func (x *Exec) Verify(fn *ssa.Function) *FuncReport {
+	x.RootPkg = ""
+	if fn != nil {
+		r := fn
+		for r.Parent() != nil {
+			r = r.Parent()
+		}
+		if r.Pkg != nil {
+			x.RootPkg = r.Pkg.Pkg.Path()
+		}
+	}
 	if sp := x.specFor(fn); sp != nil && isMethodTable(sp) {
 		return x.VerifyMethodTable(fn)
 	}
